@@ -590,6 +590,7 @@ fn dedent_bytes(source: &[u8], is_utf8_byte_string: bool) -> Result<Vec<u8>, Str
 
 /// Numeric addition of target and controller. The Vec return type is to
 /// accommodate more than one type choice in the controller
+#[cfg(feature = "additional-controls")]
 pub fn plus_operation<'a>(
   cddl: &'a CDDL<'a>,
   target: &Type2,
